@@ -201,6 +201,10 @@ _STRUCT = ("header_shapes_seen", "sweep_filters")
 for _pid, _p in PROPS.items():
     _q = _p.get("floors", {}).get("quick", {})
     _t = {k: (v if k in _STRUCT else v * 3) for k, v in _q.items()}
+    if _pid == "C02":
+        _t["distinct_nontrivial"] = 250  # the signature space is finite: 288 = framing x header shape x payload bucket
+    if _pid == "C17":
+        _t["distinct_nontrivial"] = 1500  # saturates at 1889 (fault kind x position class x layout)
     if _pid == "C09":
         _t["max_sources"] = 500
     if _pid == "C11":
